@@ -18,13 +18,13 @@ claimed = {
  'C02': "one inductive step per vault message: supply delta = recorded principal delta, debt coins only to user/collector/burn, exact draw-down fee split",
  'C03': "gate lemma on the real ratio arithmetic (decimal grid, symbolic amounts/prices/MinCr) + per-handler plumbing of the gate's arguments, debt floor and ceiling",
  'C06': "amm.Deposit / amm.Withdraw contracts, all operands symbolic up to 10^40, plus pool-state grid; keeper plumbing of a queued withdrawal (formula asked with this pool's reserves / supply / the request's pool coin / the configured withdraw fee rate; exactly its result paid from the pool's reserve; exactly the pool coin burnt; basic pools) Ranged pools with lopsided reserves (ratio rounds to zero): the derived translation keeps the price inside the configured range (three ranges with exact square roots).",
- 'C07': "FinishOrder/FinishMMOrder exact settlement from any live order, an already finished order is never settled again, owner can always cancel outside the placement batch, CancelMMOrder cancels and refunds every indexed order for unrelated symbolic app/pair ids",
+ 'C07': "FinishOrder/FinishMMOrder exact settlement from any live order, an already finished order is never settled again, owner can always cancel outside the placement batch, CancelMMOrder cancels and refunds every indexed order for unrelated symbolic app/pair ids, also next to an index entry whose order was already pruned from the store",
  'C04': "one message from an arbitrary pre-state: MsgDeposit / MsgWithdraw queue a request whose recorded coins are exactly what entered the global escrow (pool-coin supply unchanged), Farm / Unfarm move the module account's pool-coin balance by exactly the change of the farmer's recorded (queued + active) amount and never release more than recorded; the end-of-batch maturing step keeps the farmer's total per pool; finishing an order takes only its own escrow. Not covered: execution and refund of requests, pair escrows of orders (C07 covers order settlement), pool disabling, pool creation Two farmers queued in one pool: the maturing step keeps each farmer's own total.",
  'C05': "x/liquidity/amm: one individual fill (FillOrder) from any order state, a buy and a sell filled together (base conserved, quote dust in [0,1]), pro-rata distribution with remainder pass over 2 (quick) / 3 (thorough) orders of one tick on a price grid with symbolic amounts; known finding D21 (sell side can take less than distributed). Not covered: the tick loops of Match / FindMatchableAmountAtSinglePrice, pool order generation, keeper/swap.go application",
  'C08': "books mode, one message from an arbitrary pre-state: Draw (LTV gate sees collateral, principal + interest + new loan and the pair's LTV / e-mode LTV and must agree; pool holds the coins; published borrowed moves with the principal), partial Repay, partial Withdraw (never beyond AvailableToBorrow), Deposit, Lend (new position), CloseLend; gate lemma on the real valuation arithmetic (decimal grid). Not covered: Borrow, BorrowAlternate, DepositBorrow, CloseBorrow, liquidation hand-over, the sums over all positions (only the per-step identity), interest accrual writes (C18 covers the formulas) BorrowAlternate on a fresh position: the lend half moves books and custody by the lent amount and hands the borrow half the new position.",
  'C09': "safety: one liquidation decision of the second generation for an arbitrary vault / borrow from an arbitrary pre-state (seized only on the unsafe side of the applicable ratio / threshold, ratio taken over collateral vs principal + interest + closing fee, an unsafe vault is seized or the step fails, exactly the recorded collateral moves, one locked vault); liveness: sweep window functions of both generations (valid sub-range, never wider than the batch, progress), the real second-generation vault and borrow sweeps (window visited completely, continues after a failing item, own next offset stored). Not covered: first-generation (x/liquidation) decisions, auction start",
  'C16': "map-iteration-order independence (2-safety by self-composition: insertion order vs reverse order, all orders for two entries) of amm.DistributeOrderAmountToOrders; the other map ranges named in the property and process-level replay are not covered",
- 'C10': "second-generation Dutch auction: one bid from an arbitrary running auction (closed world; pays <= target, receives <= collateral, partial-bid bookkeeping, closing bid empties the auction), conversion lemma (posted price + one unit, monotone), price function falling, restart starts a fresh price line; first-generation lend Dutch auction: one bid pays the counted debt coins and receives the collateral sold plus the bonus on exactly that amount (conversions stubbed)",
+ 'C10': "second-generation Dutch auction: one bid from an arbitrary running auction (closed world; pays <= target, receives <= collateral, partial-bid bookkeeping, closing bid empties the auction), conversion lemma (posted price + one unit, monotone), price function falling, restart starts a fresh price line; first-generation lend Dutch auction: one bid pays the counted debt coins and receives the collateral sold plus the bonus on exactly that amount (conversions stubbed); first-generation vault Dutch auction: one bid settles exactly (payment <= remaining target, collateral <= held, custody deltas, owner gets the unsold rest when the target is reached, closed exactly when over, collector covers exactly the shortfall after the bid; conversions stubbed)",
  'C11': "limit bids (deposit/cancel/withdraw with arbitrary denomination and amount in the message), the end-blocker's automatic fill of a resting limit bid, one second-generation English bid and one first-generation surplus bid and debt bid, each from an arbitrary running auction state; the end of a first-generation surplus auction (lot to exactly the standing bidder, or bid returned under shutdown)",
  'C12': "vault, locker, lend/borrow messages and MsgCancelOrder that name a position succeed only for the owner; MsgKillSwitch only for a configured admin; the 20 custom contract-to-chain handlers refuse, on the main and test networks, a sender that is none of the network's governance contracts before the privileged action is reached",
  'C13': "locker books per message, collector net-fee booking for every fee-generating vault message, for the second-generation Dutch close and for the savings paid to lockers on a saving-rate change",
